@@ -53,6 +53,12 @@ class FakeOS:
         if w.lost or fd != w.fd:
             raise OSError(5, "device gone")
         drv = getattr(w, "driver", None)
+        if getattr(w, "fail_handshake_writes", 0) > 0 and getattr(w, "return_times", None) and drv is not None and not drv.connected.is_set():
+            # the gateway vanishes again during the handshake that follows its return
+            w.fail_handshake_writes -= 1
+            w.trace.append("fault:loss")
+            w._lose()
+            raise OSError(19, "No such device")
         if drv is not None and drv.connected.is_set():
             w.nwrites = getattr(w, "nwrites", 0) + 1
         if getattr(w, "fail_write_at", None) is not None and getattr(w, "fail_write_at", None) == getattr(w, "nwrites", 0) and drv.connected.is_set():
@@ -274,6 +280,7 @@ class HidWorld(World):
     def _lose(self):
         self.lost = True
         self.device_present = False
+        self.loss_times = getattr(self, "loss_times", []) + [round(self.loop.time(), 6)]
         self.loss_budget -= 1
         self.gateway.pending = []
         self.rxbuf = []
@@ -297,6 +304,10 @@ class HidWorld(World):
             "lock": d.transaction_lock.locked(),
             "status": list(self.status_log),
             "connected": d.connected.is_set(),
+            "reconnect_pending": d._reconnect_task is not None and not d._reconnect_task.done(),
+            "reconnect_exception": (repr(d._reconnect_task.exception()) if d._reconnect_task is not None and d._reconnect_task.done()
+                                    and not d._reconnect_task.cancelled() and d._reconnect_task.exception() else None),
+            "loop_exceptions": [str(x)[:200] for x in getattr(self, "loop_exceptions", [])][:3],
         }
         if self.driver_kind == "tridonic":
             obs["outstanding"] = sorted(d._outstanding)
